@@ -21,7 +21,7 @@ ASSUMPTIONS = [
     "cvc5 1.0 / system z3 4.8.12 binaries are correct on the wide-domain programs they decide",
     "default backend in this sandbox is z3 (no other backend importable)",
 ]
-REQUIRED = ["msolve.find_answer", "msolve.model_checked", "c01.sessions", "c01.wide_programs",
+REQUIRED = ["msolve.find_answer", "msolve.model_checked", "c01.sessions", "c01.sessions_crossing_10", "c01.planted_with_timeout_knob", "c01.sessions_crossing_100", "c01.wide_programs",
             "c01.ast_crosscheck", "c01.fixed_programs", "c01.realistic_graph", "c01.boundary_programs"]
 
 ALL_OPS = ["VAR", "BOOL_CONSTANT", "INT_CONSTANT", "NEG", "ADD/1", "ADD/2", "ADD/n", "SUB/2", "SUB/n", "EQ", "NE",
@@ -165,6 +165,51 @@ def gen_session(rng):
     return {"steps": steps}
 
 
+def gen_crossing_session(rng, boundary):
+    """A session whose number of declared variables crosses `boundary` (10, 100) BETWEEN two find_answer calls, with compound
+    constraints posted on both sides - anything the solver or backend keeps from the first call (names, translations, sizes) that
+    depends on the variable count goes stale here."""
+    decls, steps = [], []
+
+    def declare(k):
+        for _ in range(k):
+            d = ["b"] if rng.random() < 0.6 else ["i", (lo := rng.choice([0, 1, -2])), lo + rng.choice([1, 2, 3])]
+            decls.append(d)
+            steps.append(["decl", d])
+
+    def post(k):
+        for _ in range(k):
+            g = progs.Gen(rng, decls[-12:] if rng.random() < 0.5 else decls, depth=rng.choice([1, 2]))
+            c = g.bool_(g.depth)
+            off = len(decls) - 12 if len(g.decls) != len(decls) else 0
+            steps.append(["ensure", _shift(c, max(off, 0))])
+
+    declare(boundary - rng.randint(1, 4))
+    post(rng.randint(3, 7))
+    j = next((k for k, d in enumerate(decls) if d[0] == "b"), None)
+    contradict = j is not None and rng.random() < 0.5
+    if contradict:
+        steps.append(["ensure", ["or", ["bv", j], ["bv", j]]])
+    steps.append(["solve"])
+    declare(rng.randint(1, 4) + rng.randint(0, 3))
+    post(rng.randint(1, 3))
+    steps.append(["solve"])
+    if contradict:
+        # contradicts something posted before the crossing: must be noticed afterwards
+        steps.append(["ensure", ["not", ["and", ["bv", j], ["bv", j]]]])
+        steps.append(["solve"])
+    return {"steps": steps, "crossing": boundary}
+
+
+def _shift(ast, off):
+    """variable indices of an AST generated over a suffix of the declarations -> indices over all declarations"""
+    if off == 0 or not isinstance(ast, list):
+        return ast
+    if ast and ast[0] in ("bv", "iv") and len(ast) == 2 and isinstance(ast[1], int):
+        return [ast[0], ast[1] + off]
+    return [_shift(a, off) for a in ast]
+
+
 def fixed_programs():
     """Hand-listed corner forms that must be reached whatever the seed (empty / constant-only helpers)."""
     b, i = ["b"], ["i", 0, 2]
@@ -233,6 +278,11 @@ def run(ctx):
             run_session(ctx, st, sess)
         if k < 1:
             ctx.sample(sess)
+    for k in range(z["sessions"] // 12 + 2):
+        sess = gen_crossing_session(rng, 10 if k % 6 else 100)
+        with ctx.guard(180):
+            run_session(ctx, st, sess)
+        ctx.count("c01.sessions_crossing_%d" % sess["crossing"])
     # realistic programs: graph encodings and a puzzle solver on tiny boards (same Solver object)
     realistic(ctx, st)
     from .c13 import realistic_stage
@@ -270,6 +320,33 @@ def realistic(ctx, st):
         s.find_answer()
         ctx.case(["graph", kind, h, w, pat], nontrivial=st.last.get("oracle") is not None)
         ctx.count("c01.realistic_graph")
+    # a planted instance large enough to keep the back end busy, with the subprocess time limit knob set: the verdict must not
+    # depend on it (the planted assignment proves satisfiability; the reported model is checked by M-SOLVE as always)
+    for k in range(2 if ctx.tier == "quick" else 10):
+        n = rng.choice([5, 6, 7])
+        sh = rng.sample(range(n), n)
+        sol = [[(sh[x] + y) % n for x in range(n)] for y in range(n)]
+        s = cspuz.Solver()
+        a = s.int_array((n, n), 0, n - 1)
+        for i in range(n):
+            s.ensure(cspuz.alldifferent(a[i, :]))
+            s.ensure(cspuz.alldifferent(a[:, i]))
+        for y in range(n):
+            for x in range(n):
+                if rng.random() < 0.3:
+                    s.ensure(a[y, x] == sol[y][x])
+        ctx.current_case = {"kind": "planted-latin", "n": n, "solution": sol}
+        old = cspuz.config.solver_timeout
+        cspuz.config.solver_timeout = rng.choice([0.001, 0.01])
+        try:
+            res = s.find_answer()
+        finally:
+            cspuz.config.solver_timeout = old
+        ctx.case(["planted-latin", n, sol, k], nontrivial=True)
+        ctx.count("c01.planted_with_timeout_knob")
+        if res is not True:
+            ctx.violation("planted:find_answer-says-unsat", f"find_answer returned {res!r} for a program with a planted solution "
+                          "(config.solver_timeout set)", ctx.current_case)
 
 
 def finalize(counters, tier):
